@@ -215,4 +215,66 @@ def iterShorterDuration (pfx : Bytes) (d : Int) : Bytes × Option Bytes :=
 def lkFamilyPrefix (u : Bool) (fam : Nat) (comps : List Bytes) : Bytes :=
   combineKeys ([unlockingPrefix u, [fam]] ++ comps)
 
+/-! ### x/dymns store keys (types/keys.go) -/
+
+/-- one constructor per key family of the DymNS store, carrying the family's component(s) -/
+inductive DymnsKey
+  | dymName (name : Bytes)                      -- `DymNameKey`
+  | ownedBy (owner : Bytes)                     -- `DymNamesOwnedByAccountRvlKey`
+  | cfgAddr (addr : Bytes)                      -- `ConfiguredAddressToDymNamesIncludeRvlKey`
+  | fallback (addr : Bytes)                     -- `FallbackAddressToDymNamesIncludeRvlKey`
+  | sellOrder (assetId : Bytes) (t : AssetType) -- `SellOrderKey`
+  | countBuyOrders                              -- `KeyCountBuyOrders`
+  | buyOrder (id : Bytes)                       -- `BuyOrderKey`
+  | buyer (addr : Bytes)                        -- `BuyerToOrderIdsRvlKey`
+  | nameToBuyOrders (name : Bytes)              -- `DymNameToBuyOrderIdsRvlKey`
+  | aliasToBuyOrders (alias : Bytes)            -- `AliasToBuyOrderIdsRvlKey`
+  | rollappToAliases (rollapp : Bytes)          -- `RollAppIdToAliasesKey`
+  | aliasToRollapp (alias : Bytes)              -- `AliasToRollAppIdRvlKey`
+  deriving DecidableEq, Repr
+
+def dymNameKey (name : Bytes) : Bytes := [1] ++ name
+def dymNamesOwnedByAccountRvlKey (owner : Bytes) : Bytes := [2] ++ owner
+def configuredAddressToDymNamesIncludeRvlKey (addr : Bytes) : Bytes := [3] ++ addr
+def fallbackAddressToDymNamesIncludeRvlKey (addr : Bytes) : Bytes := [4] ++ addr
+def sellOrderKey (assetId : Bytes) : AssetType → Bytes
+  | .name => [5, 0] ++ assetId
+  | .alias => [5, 1] ++ assetId
+def keyCountBuyOrders : Bytes := [7]
+def buyOrderKey (id : Bytes) : Bytes := [8] ++ id
+def buyerToOrderIdsRvlKey (addr : Bytes) : Bytes := [9] ++ addr
+def dymNameToBuyOrderIdsRvlKey (name : Bytes) : Bytes := [10, 0] ++ name
+def aliasToBuyOrderIdsRvlKey (alias : Bytes) : Bytes := [10, 1] ++ alias
+def rollAppIdToAliasesKey (rollapp : Bytes) : Bytes := [11] ++ rollapp
+def aliasToRollAppIdRvlKey (alias : Bytes) : Bytes := [12] ++ alias
+
+/-- the store key of a DymNS record -/
+def DymnsKey.bytes : DymnsKey → Bytes
+  | .dymName n => dymNameKey n
+  | .ownedBy o => dymNamesOwnedByAccountRvlKey o
+  | .cfgAddr a => configuredAddressToDymNamesIncludeRvlKey a
+  | .fallback a => fallbackAddressToDymNamesIncludeRvlKey a
+  | .sellOrder i t => sellOrderKey i t
+  | .countBuyOrders => keyCountBuyOrders
+  | .buyOrder i => buyOrderKey i
+  | .buyer a => buyerToOrderIdsRvlKey a
+  | .nameToBuyOrders n => dymNameToBuyOrderIdsRvlKey n
+  | .aliasToBuyOrders a => aliasToBuyOrderIdsRvlKey a
+  | .rollappToAliases r => rollAppIdToAliasesKey r
+  | .aliasToRollapp a => aliasToRollAppIdRvlKey a
+
+/-- the family of a key (sell orders and asset→buy-order lookups split by asset type) -/
+def DymnsKey.family : DymnsKey → Nat
+  | .dymName _ => 0 | .ownedBy _ => 1 | .cfgAddr _ => 2 | .fallback _ => 3
+  | .sellOrder _ .name => 4 | .sellOrder _ .alias => 5 | .countBuyOrders => 6 | .buyOrder _ => 7
+  | .buyer _ => 8 | .nameToBuyOrders _ => 9 | .aliasToBuyOrders _ => 10 | .rollappToAliases _ => 11
+  | .aliasToRollapp _ => 12
+
+/-- the family's key prefix (`KeyPrefix…`): what a whole-family iteration uses -/
+def DymnsKey.familyPrefix : DymnsKey → Bytes
+  | .dymName _ => [1] | .ownedBy _ => [2] | .cfgAddr _ => [3] | .fallback _ => [4]
+  | .sellOrder _ .name => [5, 0] | .sellOrder _ .alias => [5, 1] | .countBuyOrders => [7] | .buyOrder _ => [8]
+  | .buyer _ => [9] | .nameToBuyOrders _ => [10, 0] | .aliasToBuyOrders _ => [10, 1] | .rollappToAliases _ => [11]
+  | .aliasToRollapp _ => [12]
+
 end DymVerif.Keys
